@@ -1,10 +1,45 @@
-"""C05 teardown: theorems in props/C05.v; exhaustive teardown table x third-party op between read and write."""
+"""C05 teardown: theorems in props/C05.v; exhaustive teardown table x third-party op between read and write; plus
+the orphan clause at the controller level (ObjectSets with local and delegated phases deleted with orphan propagation)."""
 import phasecheck as pc
+import json
+import setgen, setlib as sl, vlib
+
+ORPHAN_ID = "C05 ObjectSet deleted with orphan propagation deletes a member object or an ObjectSetPhase"
+
+
+def orphan_sets(seed, n):
+    """Deleting ObjectSets carrying the orphan finalizer: local-only worlds and worlds with delegated phases."""
+    out = []
+    for sc in setgen.gen(seed, n // 3, salt="C05o") + setgen.gen_delegated(seed, n - n // 3, salt="C05od"):
+        t = [s for s in sc["sets"] if s["name"] == sc["target"]["name"] and s["kind"] == sc["target"]["kind"]][0]
+        t["conds"] = [c for c in t["conds"] if not (c[0] == 4 and c[1] == 0)]   # not yet archived
+        t["deleting"], t["orphan"], t["fin"] = True, True, True
+        out.append(sc)
+    return out
 
 
 def check(run, tier, seed, replay=None):
-    scs = pc.teardown_table(tier) + pc.random_teardowns(seed, 300 if tier == "quick" else 6000)
-    pc.phase_check(run, "C05", tier, seed, replay, scs, "C05Corr.judge",
+    rsc = json.load(open(replay))["replay"]["scenario"] if replay else None
+    set_replay = rsc is not None and "target" in rsc
+    scs = [] if set_replay else pc.teardown_table(tier) + pc.random_teardowns(seed, 300 if tier == "quick" else 6000)
+    pc.phase_check(run, "C05", tier, seed, None if set_replay else replay, scs, "C05Corr.judge",
                    lambda sc, obs: "C05 delete of an uncontrolled object / wrong preconditions / effect on a different version / foreign object touched",
                    "exhaustive teardown table (ownership state x strategy x teardown preflight outcome x third-party op between "
-                   "read and write x finalizer x cache label) through the real TeardownPhase on the recording server, plus seeded random teardowns", faults=True)
+                   "read and write x finalizer x cache label) through the real TeardownPhase on the recording server, plus seeded random teardowns; "
+                   "plus deleting ObjectSets with the orphan finalizer (local and delegated phases, ObjectSetPhase objects in arbitrary "
+                   "states) through the real (Cluster)ObjectSet controller: no delete of any member and no delete / finalizer strip of any ObjectSetPhase", faults=True)
+    if replay and not set_replay:
+        return
+    osc = [rsc] if set_replay else orphan_sets(seed, 120 if tier == "quick" else 1500)
+    res = sl.run_cases(run, osc, "judge05s", 2, "From PKOCorr Require Import SetMonitors.")
+    run.cov["evaluations"] += len(res)
+    for sc, obs, r in res:
+        if r is None:
+            continue
+        agree, mon = r
+        run.classes.add(("orphan-set", obs["res"], tuple((e["kind"], (e.get("member") or {}).get("verb") or (e.get("phase") or {}).get("op")) for e in obs["events"])))
+        if not mon:
+            run.violation(ORPHAN_ID, {"scenario": sc, "impl": obs}, True)
+        elif not agree:
+            run.violation("corr:C05/ObjectSet controller model and implementation differ",
+                          {"correspondence": "SetCorr.agree", "scenario": sc, "impl": obs}, False)
